@@ -8,7 +8,12 @@
     — in particular any genesis, which is how records with several senders come to exist.
     [wf]: record keys are distinct, every record is stored under the key of its own sender set
     and has at least one unaccepted sender.  [signer_ok h]: the holder (a module address with no
-    key) signs nothing.  [rget k (s_recs s)] is the record stored under key [k = (to, suffix)];
+    key) signs nothing, and no Accept / Decline names two DIFFERENT senders that share their first
+    32 bytes ([inj_named froms]; [named_ok] is that second half alone).  Addresses may be up to
+    255 bytes long; the record key of a single sender is [trunc] of it (its first 32 bytes), so
+    two senders longer than 32 bytes with a common 32-byte prefix share one record.  Without
+    [inj_named] the statements are FALSE of the code: [C07_prefix_collision_refuted] (known
+    finding: such an Accept releases the shared record twice).  [rget k (s_recs s)] is the record stored under key [k = (to, suffix)];
     [rec_total (s_recs s) d] the total of all records in denom [d];
     [slack h s d] = holder balance - record total.
 
@@ -21,14 +26,14 @@
     quarantined in state [s] (to opted in, from is neither to, the holder nor auto-accepted);
     [dest h s t] is the holder for a quarantined pair and its receiver otherwise;
     [credited h s ts a d] the sum of the pairs whose [dest] is [a]; [recorded h s ts k d] the sum
-    of the quarantined pairs whose record key [(to, [from])] is [k]; [old k recs d] the amount
+    of the quarantined pairs whose record key [(to, [trunc from])] is [k]; [old k recs d] the amount
     the record under [k] holds (0 when there is none).  The model includes the marker send
     restriction for restricted coins ([s_xfer]): a refused transfer is a rejected operation. *)
 From Coq Require Import ZArith PArith List Bool.
 Import ListNotations.
 From PV Require Import Quarantine.Quarantine Proofs.QuarantineProofs Proofs.QuarantineConservation
   Proofs.QuarantineIndex Proofs.QuarantineSteps Proofs.QuarantineTransfers Proofs.QuarantineLiveness
-  Proofs.QuarantineHistories.
+  Proofs.QuarantineHistories Proofs.QuarantineCollision.
 Open Scope Z_scope.
 
 (** The holder's balance covers the total of all records after every history, per denom; what it
@@ -56,9 +61,9 @@ Theorem C07_not_credited_until_accept : forall h s0 ops from to c s' res,
   (forall d, s_bal s' h d = s_bal s h d + amt c d) /\
   (forall d, s_bal s' from d = s_bal s from d - amt c d) /\
   (forall d, rec_total (s_recs s') d = rec_total (s_recs s) d + amt c d) /\
-  (exists r', aget rkey_eqb (to, [from]) (s_recs s') = Some r' /\
-              forall d, amt (q_coins r') d = old (to, [from]) (s_recs s) d + amt c d) /\
-  (forall k, k <> (to, [from]) -> aget rkey_eqb k (s_recs s') = aget rkey_eqb k (s_recs s)).
+  (exists r', aget rkey_eqb (to, [trunc from]) (s_recs s') = Some r' /\
+              forall d, amt (q_coins r') d = old (to, [trunc from]) (s_recs s) d + amt c d) /\
+  (forall k, k <> (to, [trunc from]) -> aget rkey_eqb k (s_recs s') = aget rkey_eqb k (s_recs s)).
 Proof. exact not_credited_until_accept. Qed.
 Print Assumptions C07_not_credited_until_accept.
 
@@ -68,7 +73,7 @@ Print Assumptions C07_not_credited_until_accept.
     released amount is exactly what left the records; it leaves the holder and reaches [to], and
     no other balance changes.  (A removed record cannot be paid again: it is gone.) *)
 Theorem C07_paid_once_in_full : forall h s0 ops to froms perm s' rel,
-  wf s0 -> Forall (signer_ok h) ops -> to <> h ->
+  wf s0 -> Forall (signer_ok h) ops -> to <> h -> inj_named froms ->
   let s := run h s0 ops in
   step h s (OAccept to froms perm) = (s', Some rel) ->
   (forall k r, aget rkey_eqb k (s_recs s) = Some r ->
@@ -133,7 +138,7 @@ Print Assumptions C07_genesis_good.
     (to, froms) returns every record to [to] that has a sender among [froms] — which is what
     accept and decline iterate over.  (No [signer_ok] needed.) *)
 Theorem C07_suffix_index_sound : forall h s0 ops,
-  good s0 ->
+  good s0 -> Forall named_ok ops ->
   let s := run h s0 ops in
   good s /\
   (forall k r f, aget rkey_eqb k (s_recs s) = Some r -> is_multi (all_froms r) = true -> In f (all_froms r) ->
@@ -147,13 +152,13 @@ Print Assumptions C07_suffix_index_sound.
     an accepted MsgSend / MsgMultiSend / many-inputs InputOutputCoins: every account's balance
     changes by exactly what it is debited as an input and what is credited to it, where the
     amount of each (input, output) pair is credited to the holder when the pair is quarantined
-    and to its receiver otherwise; the record under (to, [from]) gains exactly the quarantined
+    and to its receiver otherwise; the record under (to, [trunc from]) gains exactly the quarantined
     pairs from [from] to [to] (repeated receivers add up; a top-up adds to what was there), no
     other record changes; a receiver all of whose pairs are quarantined (and that is not an
     input) keeps its balance; the holder gains exactly the quarantined amounts plus what is
     sent to it directly; opt-ins and auto-responses are unchanged. *)
 Theorem C07_transfer_pairs : forall h s0 ops o s' res,
-  good s0 -> is_transfer o ->
+  good s0 -> Forall named_ok ops -> is_transfer o ->
   let s := run h s0 ops in
   step h s o = (s', Some res) ->
   let ts := transfers_of o in
@@ -173,7 +178,7 @@ Print Assumptions C07_transfer_pairs.
     kind (accepted or rejected; sends, multi-sends, declines, opt-in/out, auto-response updates)
     lowers it in any denom, and neither does any continuation without an accept. *)
 Theorem C07_only_accept_lowers_holder : forall h s0 ops,
-  good s0 ->
+  good s0 -> Forall named_ok ops ->
   let s := run h s0 ops in
   (forall o s' res, signer_ok h o -> not_accept o -> step h s o = (s', res) ->
      forall d, s_bal s h d <= s_bal s' h d) /\
@@ -188,7 +193,7 @@ Print Assumptions C07_only_accept_lowers_holder.
     marker restriction cannot block the payout: the holder is a required-attribute bypass
     address; the holder's balance suffices by [C07_holder_covers_records].) *)
 Theorem C07_accept_pays_out : forall h s0 ops to froms perm k r,
-  good s0 -> covers h s0 -> Forall (signer_ok h) ops -> to <> h ->
+  good s0 -> covers h s0 -> Forall (signer_ok h) ops -> to <> h -> inj_named froms ->
   let s := run h s0 ops in
   aget rkey_eqb k (s_recs s) = Some r -> fst k = to -> incl (q_unacc r) froms ->
   exists s' rel,
@@ -208,7 +213,7 @@ Print Assumptions C07_accept_pays_out.
     until [f] is accepted anew (by [C07_paid_once_in_full] a record is only removed by an
     accept naming all its unaccepted senders). *)
 Theorem C07_decline_revokes_acceptance : forall h s0 ops to froms perm k r f,
-  good s0 ->
+  good s0 -> Forall named_ok ops -> inj_named froms ->
   let s := run h s0 ops in
   aget rkey_eqb k (s_recs s) = Some r -> fst k = to -> In f (all_froms r) -> In f froms ->
   exists s' r',
@@ -216,7 +221,7 @@ Theorem C07_decline_revokes_acceptance : forall h s0 ops to froms perm k r f,
     aget rkey_eqb k (s_recs s') = Some r' /\ In f (q_unacc r') /\ incl (q_unacc r) (q_unacc r') /\
     q_coins r' = q_coins r /\ q_declined r' = true /\
     (forall a d, s_bal s' a d = s_bal s a d) /\
-    (forall ops2, Forall (fun o => ~ accepts_sender to f o) ops2 ->
+    (forall ops2, Forall named_ok ops2 -> Forall (fun o => ~ accepts_sender to f o) ops2 ->
        exists r2, aget rkey_eqb k (s_recs (run h s' ops2)) = Some r2 /\ In f (q_unacc r2) /\
                   forall d, amt (q_coins r) d <= amt (q_coins r2) d).
 Proof. exact decline_revokes_hist. Qed.
@@ -227,7 +232,7 @@ Print Assumptions C07_decline_revokes_acceptance.
     receiver sends no Accept naming [f] (whatever else happens: sends, top-ups, accepts of other
     senders, declines, opt-outs, auto-response changes — including setting [f] to auto-accept). *)
 Theorem C07_unaccepted_sender_blocks_payout : forall h s0 ops k r f ops2,
-  good s0 ->
+  good s0 -> Forall named_ok ops -> Forall named_ok ops2 ->
   let s := run h s0 ops in
   aget rkey_eqb k (s_recs s) = Some r -> In f (q_unacc r) ->
   Forall (fun o => ~ accepts_sender (fst k) f o) ops2 ->
@@ -235,6 +240,30 @@ Theorem C07_unaccepted_sender_blocks_payout : forall h s0 ops k r f ops2,
              forall d, amt (q_coins r) d <= amt (q_coins r2) d.
 Proof. exact unaccepted_blocks_payout_hist. Qed.
 Print Assumptions C07_unaccepted_sender_blocks_payout.
+
+(** KNOWN FINDING (refutes [C07_paid_once_in_full], [C07_holder_covers_records] and
+    [C07_accept_pays_out] without [inj_named]).  createRecordSuffix cuts a single sender address
+    longer than 32 bytes to its first 32 bytes.  Two different 40-byte senders L1, L2 with the same
+    first 32 bytes: the funds L2 sends to the opted-in receiver 3 are added to the record whose only
+    sender is L1; an Accept naming L2 alone releases nothing; an Accept naming both looks the one
+    record up twice and releases it twice (260 for a record of 130), out of the funds held for
+    receiver 4, whose own Accept then fails for lack of funds in the holder.  Reproduced on the
+    real handlers by the harness (findings/C07.md). *)
+Theorem C07_prefix_collision_refuted :
+  good cx_s0 /\ covers cx_h cx_s0 /\ Forall (signer_ok cx_h) cx_ops /\ cx_L1 <> cx_L2 /\ trunc cx_L1 = trunc cx_L2 /\
+  let s := run cx_h cx_s0 cx_ops in
+  option_map all_froms (aget rkey_eqb (3%positive, [trunc cx_L2]) (s_recs s)) = Some [cx_L1] /\
+  old (3%positive, [trunc cx_L2]) (s_recs s) 1%positive = 130 /\
+  snd (step cx_h s (OAccept 3%positive [cx_L2] false)) = Some [] /\
+  s_recs (fst (step cx_h s (OAccept 3%positive [cx_L2] false))) = s_recs s /\
+  let s' := fst (step cx_h s (OAccept 3%positive [cx_L1; cx_L2] false)) in
+  option_map (fun rel => amt rel 1%positive) (snd (step cx_h s (OAccept 3%positive [cx_L1; cx_L2] false))) = Some 260 /\
+  rec_total (s_recs s) 1%positive - rec_total (s_recs s') 1%positive = 130 /\
+  s_bal s' 3%positive 1%positive = s_bal s 3%positive 1%positive + 260 /\
+  s_bal s' cx_h 1%positive = 370 /\ rec_total (s_recs s') 1%positive = 500 /\
+  snd (step cx_h s' (OAccept 4%positive [2%positive] false)) = None.
+Proof. exact prefix_collision_refuted. Qed.
+Print Assumptions C07_prefix_collision_refuted.
 
 (** Non-vacuity: a well-formed genesis with a two-sender record; a quarantined send, an accept
     of one sender (pays the single-sender record only), then of the other (pays the rest). *)
@@ -268,7 +297,8 @@ Proof.
     destruct (Pos.eqb d 1); cbn; discriminate.
   - vm_compute. discriminate.
   - cbn zeta. split; [|vm_compute; repeat split].
-    repeat constructor; discriminate.
+    constructor; [discriminate|]. constructor; [|constructor]. split; [discriminate|].
+    intros a b [<-|[]] [<-|[]] _; reflexivity.
 Qed.
 
 (** Non-vacuity of the deepened statements: [ex_s0] is [good]; denom 2 is a restricted marker coin
